@@ -137,12 +137,37 @@ def theorem_status(prop):
 
 
 # ---------------------------------------------------------------- Go harness
+# The harness binary is per property (vh_<prop>): a check never overwrites the executable another check is running.
+# Builds (Coq make, oracle, go build) are serialised across concurrent checks by a file lock.
+VH = ['vh']
+VH_RACE = ['vh_race']
+
+
+def set_harness_names(prop):
+    VH[0] = 'vh_' + prop
+    VH_RACE[0] = 'vh_race_' + prop
+
+
+class build_lock:
+    def __enter__(self):
+        import fcntl
+        os.makedirs(WORK, exist_ok=True)
+        self.f = open(os.path.join(WORK, '.buildlock'), 'w')
+        fcntl.flock(self.f, fcntl.LOCK_EX)
+        return self
+
+    def __exit__(self, *a):
+        import fcntl
+        fcntl.flock(self.f, fcntl.LOCK_UN)
+        self.f.close()
+
+
 def build_harness(race=False):
     shutil.copy(os.path.join(REPO, 'go.sum'), os.path.join(HARNESS, 'go.sum'))
     if race:
-        p = run(['go', 'build', '-race', '-tags', 'verif', '-o', 'vh_race', '.'], cwd=HARNESS, env=dict(GOENV, CGO_ENABLED='1'))
+        p = run(['go', 'build', '-race', '-tags', 'verif', '-o', VH_RACE[0], '.'], cwd=HARNESS, env=dict(GOENV, CGO_ENABLED='1'))
     else:
-        p = run(['go', 'build', '-tags', 'verif', '-o', 'vh', '.'], cwd=HARNESS, env=GOENV)
+        p = run(['go', 'build', '-tags', 'verif', '-o', VH[0], '.'], cwd=HARNESS, env=GOENV)
     return p.returncode == 0, (p.stdout + p.stderr)[-4000:]
 
 
@@ -152,7 +177,7 @@ def run_stream(stream, seed, n, outdir, extra=(), name=None):
     # own) is reported like a crash: the harness has a watchdog (exit 3), this timeout is the backstop
     thorough = 'thorough' in list(extra)
     try:
-        p = run([os.path.join(HARNESS, 'vh'), stream, '--seed', str(seed), '--n', str(n), '--out', outdir] + list(extra),
+        p = run([os.path.join(HARNESS, VH[0]), stream, '--seed', str(seed), '--n', str(n), '--out', outdir] + list(extra),
                 cwd=HARNESS, env=GOENV, timeout=(6 * 3600 if thorough else 900))
     except subprocess.TimeoutExpired as e:
         return None, 'stream %s did not finish within %ds: blocked\n%s' % (stream, e.timeout, ((e.stderr or b'')[-3000:] if isinstance(e.stderr, bytes) else (e.stderr or '')[-3000:]))
